@@ -457,6 +457,98 @@ def h_amalgamate(ctx, case):
     return 'ok'
 
 
+AMAL = {}
+
+
+def setup_amal_files(case, mode):
+    import warnings
+    warnings.simplefilter('ignore')
+    import cell_type_mapper.anndata_iterator.anndata_iterator as AI2
+    patch(AU, 'print', lambda *a, **k: None)
+    patch(AI2, 'print', lambda *a, **k: None)
+    AMAL.clear()
+
+
+def _amal_inputs():
+    """two real h5ad files (3 cells x 3 genes), each with X and a layer
+    `raw` that differ, CSR and dense; built once per job"""
+    if AMAL:
+        return AMAL
+    import anndata
+    import pandas as pd
+    import scipy.sparse as sp
+    from harness.common import sandbox_root
+    import os
+    d = os.path.join(sandbox_root(), 'amal_inputs')
+    os.makedirs(d, exist_ok=True)
+    mats = {}
+    for tag, base, enc in (('A', 10.0, 'csr'), ('B', 50.0, 'dense')):
+        x = np.array([[base + 3 * r + c if (r + c) % 2 == 0 else 0.0
+                       for c in range(3)] for r in range(3)])
+        raw = np.array([[base + 100 + 3 * r + c if (r + 2 * c) % 3 != 0
+                         else 0.0 for c in range(3)] for r in range(3)])
+        mats[tag] = {'X': x, 'raw': raw}
+        conv = sp.csr_matrix if enc == 'csr' else (lambda m: m)
+        a = anndata.AnnData(X=conv(x), layers={'raw': conv(raw)},
+                            obs=pd.DataFrame(index=[f'{tag}{i}'
+                                                    for i in range(3)]),
+                            var=pd.DataFrame(index=['g0', 'g1', 'g2']))
+        path = os.path.join(d, f'{tag}.h5ad')
+        a.write_h5ad(path)
+        mats[tag]['path'] = path
+    AMAL.update(mats=mats, dir=d)
+    return AMAL
+
+
+def h_amalgamate_files(ctx, case):
+    """amalgamate_h5ad on real files: every piece is a (file, layer, row
+    list) selection; the same file may be named twice with different
+    layers"""
+    import os
+    import anndata
+    import pandas as pd
+    from harness.common import sandbox_root
+    inp = _amal_inputs()
+    ROWS = [[0], [2, 0], [1, 2]]
+    pieces, want = [], []
+    for k in range(case.get('pieces', 2)):
+        tag = ['A', 'B'][ctx.choice(f'file[{k}]', 2)]
+        layer = ['X', 'raw'][ctx.choice(f'layer[{k}]', 2)]
+        rows = ROWS[ctx.choice(f'rows[{k}]', len(ROWS))]
+        pieces.append({'path': inp['mats'][tag]['path'], 'rows': list(rows),
+                       'layer': layer})
+        want += [inp['mats'][tag][layer][r] for r in rows]
+    want = np.array(want)
+    sparse = ctx.flag('dst_sparse')
+    work = os.path.join(sandbox_root(), 'amal_work')
+    import shutil
+    shutil.rmtree(work, ignore_errors=True)
+    os.makedirs(os.path.join(work, 'scratch'))
+    dst = os.path.join(work, 'stacked.h5ad')
+    obs = pd.DataFrame(index=[f'cell{i}' for i in range(len(want))])
+    var = pd.DataFrame(index=['g0', 'g1', 'g2'])
+    try:
+        AU.amalgamate_h5ad(src_rows=pieces, dst_path=dst, dst_obs=obs,
+                           dst_var=var, dst_sparse=sparse,
+                           tmp_dir=os.path.join(work, 'scratch'),
+                           compression=bool(case.get('compression')))
+    except Exception as e:
+        ctx.exception(e)
+        return 'EXC ' + type(e).__name__
+    ctx.reach('stacked')
+    got = anndata.read_h5ad(dst)
+    X = got.X.toarray() if hasattr(got.X, 'toarray') else np.asarray(got.X)
+    ctx.check(X.shape == want.shape and bool(np.array_equal(X, want)),
+              'X of the result == the selected rows of the selected layers, '
+              'in order')
+    ctx.check(list(got.obs.index) == list(obs.index) and
+              list(got.var.index) == list(var.index),
+              'obs / var of the result are the ones given')
+    left = os.listdir(os.path.join(work, 'scratch'))
+    ctx.check(left == [], f'scratch directory empty afterwards: {left[:3]}')
+    return 'ok'
+
+
 def classify_amal(f, case):
     w = f['witness']
     nnz = sum(1 for k, v in w.items() if '.nz[' in k and v is True)
@@ -522,6 +614,19 @@ BY_WAY = dict(
     expect_reach=['transposed'])
 
 HARNESSES = [
+    Harness('amalgamate_h5ad_files', h_amalgamate_files,
+            setup=setup_amal_files, cases=[{'pieces': 2}],
+            thorough_cases=[{'pieces': 3}, {'pieces': 2,
+                                           'compression': True}],
+            funcs=['anndata_utils.amalgamate_h5ad', '_amalgamate_h5ad',
+                   'AnnDataRowIterator.get_batch',
+                   'amalgamate_csr_to_x / amalgamate_dense_to_x'],
+            stubs=['none (real h5py / anndata files)'],
+            bounds='two real files (3x3, CSR and dense), each with X and a '
+                   'layer that differ; 2 (3) pieces, each any file, either '
+                   'layer, one of three row lists (incl. out of order); '
+                   'sparse or dense result',
+            expect_reach=['stacked'], split=16),
     Harness('transpose_by_way_of_disk', h_by_way_of_disk, **BY_WAY),
     Harness('transpose_on_disk', h_transpose, setup=setup_tr,
             cases=[{'shape': [2, 3]}, {'shape': [3, 2]},
